@@ -42,7 +42,8 @@ def main(argv=None):
         rep = Report(prop, tier)
         try:
             mod = importlib.import_module("rules.%s" % prop)
-            mod.run(ctx, rep, tier)
+            from .runrules import run_module
+            run_module(mod, ctx, rep, tier)
             from . import darule
             darule.apply(ctx, rep)
         except AnalysisError as e:
